@@ -12,6 +12,9 @@ pub enum Yield {
     Site(&'static str),
     /// The vthread waits until a collector cycle that starts after this request has completed.
     WaitFlush,
+    /// The vthread is about to register its command queue but the registry's lock is held by the
+    /// collector cycle in progress: it cannot continue before that cycle's drain has ended.
+    BlockedOnRegistry,
     /// The vthread's body is done; it will not take the baton again and must be joined.
     Exiting,
 }
@@ -20,6 +23,11 @@ struct St {
     /// Some(id): vthread `id` holds the baton. None: the scheduler holds it.
     current: Option<usize>,
     last: Yield,
+    /// vthreads that gave the baton back without waiting for it (they are blocked on a lock of
+    /// the library); they take their turn again at their next yield point
+    detached: Vec<usize>,
+    /// detached vthreads that have reached their next yield point and wait for their turn
+    parked: Vec<usize>,
 }
 
 pub struct Baton {
@@ -39,6 +47,8 @@ impl Baton {
             m: Mutex::new(St {
                 current: None,
                 last: Yield::OpDone,
+                detached: Vec::new(),
+                parked: Vec::new(),
             }),
             cv: Condvar::new(),
         }
@@ -52,8 +62,45 @@ impl Baton {
         }
     }
 
+    /// vthread side: give the baton back but keep running: the caller is about to block on a lock
+    /// that the baton holder owns (the library's receiver registry). Nothing of the harness may
+    /// be touched until `reattach`.
+    pub fn detach(&self, id: usize, why: Yield) {
+        let mut g = self.m.lock().unwrap();
+        debug_assert_eq!(g.current, Some(id));
+        g.current = None;
+        g.last = why;
+        g.detached.push(id);
+        self.cv.notify_all();
+    }
+
+    /// vthread side: a detached vthread waits for its turn again (no-op otherwise).
+    pub fn reattach(&self, id: usize) {
+        let mut g = self.m.lock().unwrap();
+        if g.detached.contains(&id) {
+            g.parked.push(id);
+            self.cv.notify_all();
+            while g.current != Some(id) {
+                g = self.cv.wait(g).unwrap();
+            }
+            g.detached.retain(|x| *x != id);
+            g.parked.retain(|x| *x != id);
+        }
+    }
+
+    /// scheduler side: wait until every detached vthread has got through the lock it was blocked
+    /// on and is parked at its next yield point (called when that lock has been released for
+    /// good, so that nothing of the library runs concurrently with the next baton holder).
+    pub fn wait_detached_parked(&self) {
+        let mut g = self.m.lock().unwrap();
+        while !g.detached.iter().all(|d| g.parked.contains(d)) {
+            g = self.cv.wait(g).unwrap();
+        }
+    }
+
     /// vthread side: give the baton back and wait to be resumed.
     pub fn yield_now(&self, id: usize, why: Yield) {
+        self.reattach(id);
         let mut g = self.m.lock().unwrap();
         debug_assert_eq!(g.current, Some(id));
         g.current = None;
@@ -66,6 +113,7 @@ impl Baton {
 
     /// vthread side: give the baton back for good (thread is about to exit).
     pub fn exit(&self, id: usize) {
+        self.reattach(id);
         let mut g = self.m.lock().unwrap();
         debug_assert_eq!(g.current, Some(id));
         g.current = None;
